@@ -1,6 +1,15 @@
-"""Probe: derive an LL automaton from gherkin.berp and compare (explicit product walk) with parser.py tables."""
-import re, sys, collections
-sys.path.insert(0, "/tmp/probe")
+"""LL automaton derived from gherkin.berp (this framework's reading of the grammar semantics).
+
+Configurations are call paths with a position (the same objects the state comments in the
+generated parsers name).  Transitions by innermost-continuation-first closure over ?, *, +,
+alternatives; `!` rules emit start/end productions; a transition entering a rule that carries
+a hint [skip->expected] on a token of the skip set is guarded by that look-ahead; ignored
+tokens get a build-only self loop where they have no explicit transition and #Other is not
+expected; #EOF closes every open rule when the rest is nullable.
+"""
+import collections
+import os
+import re
 
 def parse_berp(path):
     txt = open(path, encoding="utf8").read()
@@ -35,7 +44,7 @@ def parse_berp(path):
             if alt: rules[n] = dict(bang=False, hint=None, alts=alt[1])
     return rules, ignored
 
-RULES, IGNORED = parse_berp("/repo/gherkin.berp")
+RULES, IGNORED = parse_berp(os.path.join(os.environ.get("VERIF_REPO", "/repo"), "gherkin.berp"))
 START = "GherkinDocument"
 
 def nullable_sym(sym):
@@ -122,66 +131,21 @@ def build():
             if s != "END" and s not in configs: todo.append(s)
     return configs
 
-if __name__ == "__main__":
-    cfg = build()
-    print("configs", len(cfg), "transitions", sum(len(v) for v in cfg.values()))
-    import ext
-    P = ext.states
-    LA = {"lookahead_0": (("#Empty", "#Comment", "#TagLine"), ("#ScenarioLine",)), "lookahead_1": (("#Empty", "#Comment", "#TagLine"), ("#ExamplesLine",))}
-    KINDS = ["#EOF","#Empty","#Comment","#TagLine","#FeatureLine","#RuleLine","#BackgroundLine","#ScenarioLine","#ExamplesLine","#StepLine","#DocStringSeparator","#TableRow","#Language","#Other"]
-    def impl_step(s, kind, la_out):
-        # own kind semantic: own kind first, Language implies Comment, Other fallback
-        cands = [kind] + (["#Comment"] if kind == "#Language" else []) + (["#Other"] if kind not in ("#EOF", "#Other") else [])
-        for (mk, la, prods, tgt) in P[s]["trans"]:
-            k = "#" + mk[len("match_"):]
-            if k in cands:
-                # respects order among candidates? impl order decides; emulate exactly:
-                pass
-        # emulate exact ordered semantics with match vector = cands
-        for (mk, la, prods, tgt) in P[s]["trans"]:
-            k = "#" + mk[len("match_"):]
-            if k in cands:
-                if la is not None and not la_out[LA[la]]: continue
-                return ("ok", [tuple(p) for p in prods], tgt)
-        return ("err", tuple(P[s]["expected"]), s)
-    def oracle_step(c, kind, la_out):
-        cands = [kind] + (["#Comment"] if kind == "#Language" else []) + (["#Other"] if kind not in ("#EOF", "#Other") else [])
-        # priority: own kind, then Comment (for Language), then Other
-        for want in cands:
-            for (t, la, pr, s) in cfg[c]:
-                if t == want:
-                    if la is not None and not la_out[la]: continue
-                    return ("ok", [tuple(p) for p in pr], s)
-        return ("err", tuple(dict.fromkeys(t for (t, _, _, _) in cfg[c])), c)
-    import itertools
-    seen = {}
-    todo = [(0, "START")]
-    mism = 0
-    while todo:
-        s, c = todo.pop()
-        if (s, c) in seen: continue
-        seen[(s, c)] = True
-        for kind in KINDS:
-            for b0, b1 in itertools.product([False, True], repeat=2):
-                la_out = {LA["lookahead_0"]: b0, LA["lookahead_1"]: b1}
-                a = impl_step(s, kind, la_out); b = oracle_step(c, kind, la_out)
-                if a[0] != b[0] or (a[0] == "ok" and a[1] != b[1]) or (a[0] == "err" and set(a[1]) != set(b[1])):
-                    mism += 1
-                    if mism < 12: print("MISMATCH", s, c if c == "START" else c[-3:], kind, b0, b1, a, b)
+
+
+def oracle_step(cfg, c, kind, la_out):
+    """own kind first, then Comment (a language header is a comment), then free text, else error.
+    kind/tokens carry the leading '#'.  la_out maps (skip tuple, expected tuple) -> bool."""
+    cands = [kind] + (["#Comment"] if kind == "#Language" else []) + (["#Other"] if kind not in ("#EOF", "#Other") else [])
+    for want in cands:
+        for (t, la, pr, s) in cfg[c]:
+            if t == want:
+                if la is not None and not la_out[la]:
                     continue
-                if a[0] == "ok":
-                    ns, nc = a[2], b[2]
-                    if (ns == 34) != (nc == "END"):
-                        mism += 1; print("END mismatch", s, kind); continue
-                    if ns != 34: todo.append((ns, nc))
-    print("pairs", len(seen), "impl states", len(set(s for s, _ in seen)), "oracle configs", len(set(c for _, c in seen)), "mismatches", mism)
-    # expected-list order check
-    bad = 0
-    for (s, c) in seen:
-        exp_o = list(dict.fromkeys(t for (t, _, _, _) in cfg[c]))
-        # berp order: EOF first, Other last
-        exp_o = [t for t in exp_o if t == "#EOF"] + [t for t in exp_o if t not in ("#EOF", "#Other")] + [t for t in exp_o if t == "#Other"]
-        if exp_o != P[s]["expected"]:
-            bad += 1
-            if bad < 5: print("ORDER", s, exp_o, P[s]["expected"])
-    print("expected-list order mismatches", bad)
+                return ("ok", tuple(tuple(p) for p in pr), s)
+    return ("err", expected_list(cfg, c), c)
+
+
+def expected_list(cfg, c):
+    exp = list(dict.fromkeys(t for (t, _, _, _) in cfg[c]))
+    return tuple([t for t in exp if t == "#EOF"] + [t for t in exp if t not in ("#EOF", "#Other")] + [t for t in exp if t == "#Other"])
